@@ -19,6 +19,33 @@ def parse_arr(s):
     return np.array(common.parse_floats(d), dtype=np.float64).reshape(shape)
 
 
+LAYOUTS = False          # set by the property modules whose input space includes the memory layout of leaf arrays
+LAYOUT_NAMES = ['C', 'C', 'F', 'strided', 'reversed', 'offset', 'transposed']
+
+
+def relayout(a, layout):
+    """an array with the same values (and dtype) as `a` in another memory layout"""
+    if a.ndim == 0:
+        return a                                  # (np.ascontiguousarray would turn a 0-d array into a 1-d one)
+    a = np.ascontiguousarray(a)
+    if layout == 'F':
+        return np.asfortranarray(a)
+    if layout == 'strided':                       # every second element of a twice-as-long last axis
+        big = np.full(a.shape[:-1] + (2 * a.shape[-1],), 55, dtype=a.dtype)
+        big[..., ::2] = a
+        return big[..., ::2]
+    if layout == 'reversed':                      # negative stride on the last axis
+        return np.ascontiguousarray(a[..., ::-1])[..., ::-1]
+    if layout == 'offset':                        # a window into a larger buffer
+        big = np.full(tuple(n + 2 for n in a.shape), -77, dtype=a.dtype)
+        sl = tuple(slice(1, n + 1) for n in a.shape)
+        big[sl] = a
+        return big[sl]
+    if layout == 'transposed':                    # a transposed view of the transposed copy
+        return np.ascontiguousarray(a.T).T
+    return a
+
+
 def arr_line(shape, data, name='leaf'):
     return f"{show_ints(shape)} {show_floats(data)}"
 
@@ -137,6 +164,8 @@ class Impl:
         if c == 'leaf':
             shape = tuple(common.parse_ints(t[3]))
             a = np.array(common.parse_floats(t[5]), dtype=np.float64).reshape(shape).astype(DT[t[2]])
+            if LAYOUTS:      # same values, another memory layout (Tensor keeps the caller's ndarray as it is)
+                a = relayout(a, LAYOUT_NAMES[sum(map(ord, t[5][:64])) % len(LAYOUT_NAMES)])
             x = sg.Tensor(a, requires_grad=bool(int(t[4])))
             self.ts.append(x)
             return f't{len(self.ts) - 1}'
